@@ -188,6 +188,16 @@ ProxyStep ==
                       /\ held' = [held EXCEPT ![d] = Append(@, [k |-> k, m |-> fwd])]
                       /\ ops' = Append(ops, OpRec(d, lab, o, "hold", k))
                    /\ outbox' = Tail(outbox) /\ UNCHANGED net
+                \/ \* legal re-packing: this record and the n-1 that follow it travel as ONE record holding all their
+                   \* handshake messages (merge) or as one datagram holding the records (coalesce); content unchanged
+                   /\ kind \in {"merge2", "merge3", "merge4", "coal2", "coal3", "coal4"}
+                   /\ LET n == IF kind \in {"merge2", "coal2"} THEN 2 ELSE IF kind \in {"merge3", "coal3"} THEN 3 ELSE 4 IN
+                      /\ Len(outbox) >= n
+                      /\ \A i \in 1..n : outbox[i].dir = d /\ Plain(outbox[i].m.t)
+                      /\ net' = [net EXCEPT ![d] = @ \o [i \in 1..n |-> Shifted(d, outbox[i].m)]]
+                      /\ outbox' = SubSeq(outbox, n + 1, Len(outbox))
+                      /\ ops' = Append(ops, OpRec(d, lab, o, IF kind \in {"merge2", "merge3", "merge4"} THEN "merge" ELSE "coalesce", n))
+                   /\ UNCHANGED held
                 \/ /\ kind = "splitov"              \* two overlapping fragments: [0, 2/3) and [1/3, 1)
                    /\ Plain(m.t) /\ m.nfrag = 1 /\ m.t # "SHD" /\ m.t # "CR"
                    /\ LET fr == <<[m EXCEPT !.frag = 1, !.nfrag = 2, !.lo = 0, !.hi = 4],
